@@ -255,6 +255,19 @@ func propC03(c *Check) {
 			c.Violated("R2", "receipt."+f+" @ "+FuncKey(vd), p.Pos(vd.Pos()), "receipt field is "+got[f]+", expected "+want[f]+" reason=not-established")
 		}
 	}
+	// the capped tax may be written with the min builtin: min(tax, cap) selects the same two values as
+	// `if tax > cap { tax = cap }` (the selection itself is checked below)
+	taxCalc0 := "((" + val + " / 10000) * Params.Get()#0.DepositTaxRate)"
+	minForms := []string{"min(" + taxCalc0 + ", Params.Get()#0.MaxDepositTax)", "min(Params.Get()#0.MaxDepositTax, " + taxCalc0 + ")"}
+	usesMin := false
+	for _, f := range []string{"Amount", "Tax"} {
+		for _, mf := range minForms {
+			if strings.Contains(got[f], mf) {
+				usesMin = true
+				got[f] = strings.ReplaceAll(got[f], mf, "Params.Get()#0.MaxDepositTax")
+			}
+		}
+	}
 	// the amount may also be `value - tax` unconditionally, with tax = 0 where no tax applies
 	unconditional := got["Amount"] == "("+val+" - "+want["Tax"]+")"
 	if unconditional {
@@ -286,7 +299,19 @@ func propC03(c *Check) {
 						foundSub = true
 						c.requireFactCtx(x, "R5", "tax-needs-value>10000", lit("(10000 < "+val+")"), instrSet([]ssa.Instruction{in}), "tax computation")
 					}
+				case *ssa.Call:
+					// tax = min(tax, cap): the builtin selects the smaller one; it must only be applied under cap > 0
+					if bi, ok := v.Call.Value.(*ssa.Builtin); ok && usesMin && bi.Name() == "min" && len(v.Call.Args) == 2 {
+						a0, a1 := x.r.E(v.Call.Args[0]), x.r.E(v.Call.Args[1])
+						if (a0 == taxCalc && a1 == "Params.Get()#0.MaxDepositTax") || (a1 == taxCalc && a0 == "Params.Get()#0.MaxDepositTax") {
+							capOK = c.requireFactCtx(x, "R5", "cap-needs-cap>0", patPositive("Params.Get()#0.MaxDepositTax"), instrSet([]ssa.Instruction{in}), "cap application")
+							foundSub = foundSub || strings.Contains(got["Amount"], "("+val+" - ")
+						}
+					}
 				case *ssa.Phi:
+					if x.r.E(v) != taxInner && !usesMin {
+						continue
+					}
 					if x.r.E(v) != taxInner {
 						continue
 					}
